@@ -29,9 +29,9 @@ def gen_c14(r):
     if dt in ("i8", "u8", "u4") and r.random() < 0.5:
         # values beyond 2**31 / 2**53 (neighbours that a float64 comparison would merge), sent as 16-bit limbs
         from .enc import limbs
-        base = r.choice([2 ** 53, 2 ** 62, 2 ** 63 - 8, 2 ** 40]) if dt != "u4" else 2 ** 32 - 8
+        base = r.choice([2 ** 53, 2 ** 62, 2 ** 63 - 20, 2 ** 40]) if dt != "u4" else 2 ** 32 - 20       # at most 14 distinct values follow
         if dt == "u8":
-            base = r.choice([2 ** 53, 2 ** 63, 2 ** 64 - 8])
+            base = r.choice([2 ** 53, 2 ** 63, 2 ** 64 - 20])
         sign = -1 if dt == "i8" and r.random() < 0.3 else 1
         vals = {}
         a = [limbs(sign * (base + vals.setdefault(repr(v), len(vals)))) for v in a]
